@@ -136,6 +136,35 @@ Theorem C03_restart_preserves :
 Proof. exact restart_preserves. Qed.
 Print Assumptions C03_restart_preserves.
 
+(* Restoring works on every mount layout: extract_objects stages each output in the DIRECTORY OF THAT OUTPUT
+   (never in the server's temp directory), so the final rename never crosses a file system.  [restore_mounted mnt]
+   is the restore that fails with EXDEV whenever staging and destination directory are on different mounts of an
+   arbitrary assignment mnt of mounts to directories; it is the plain [restore] that [do_request] performs — hence
+   C03_hit_after_store holds wherever the build tree, the cache and TMPDIR are mounted. *)
+Theorem C03_restore_any_mount_layout :
+  forall (mnt : bytes -> N) (e : entry) (outs : list output) (ws : list (key * N)),
+  restore_mounted mnt e outs ws = restore e outs ws.
+Proof. exact restore_any_mount_layout. Qed.
+Print Assumptions C03_restore_any_mount_layout.
+
+(* A damaged entry is replaced, not kept: in every reachable state, after the entry file of request r has been
+   damaged (truncated; it stays indexed by the running server), the request is not answered as a hit; when it
+   recompiles and the new entry fits the cache at all, the store SUCCEEDS — over the key that is still indexed —
+   and leaves the key indexed with readable bytes.  From there C03_hit_after_store applies again: every further
+   identical request is served from the cache. *)
+Theorem C03_damaged_entry_replaced :
+  forall (key_of : fingerprint -> key) (compile : request -> N -> cresult)
+         (c0 : N) (h0 : list event) (r : request) (sz : N) (w1 : world) (o : outcome),
+  let w := damage (run_events key_of compile (empty_world c0) h0) (req_path key_of r) sz in
+  do_request key_of compile w r = (w1, o) ->
+  oc_kind o <> KHit /\
+  (forall rerr, oc_kind o = KMiss rerr -> cr_size (compile r (w_compiles w)) <= cap (w_store w) ->
+     oc_stored o = true) /\
+  (oc_stored o = true ->
+     In (req_path key_of r) (map fst (index (w_store w1))) /\ alookup (req_path key_of r) (w_content w1) <> None).
+Proof. exact damaged_entry_replaced. Qed.
+Print Assumptions C03_damaged_entry_replaced.
+
 (* ---------- non-vacuity ---------- *)
 Import C03Example.
 
@@ -168,3 +197,16 @@ Example C03_example_coverage_keyed_on_output :
   fingerprint_of (retarget rcov b_o [out obj_role b_o] 5) <> fingerprint_of rcov /\
   fingerprint_of (retarget r0 b_o [out [111] b_o] 5) = fingerprint_of r0.
 Proof. split; [intros H; vm_compute in H; discriminate | vm_compute; reflexivity]. Qed.
+
+(* a damaged entry: the next identical request is a miss with a read error that stores again, the one after a hit;
+   and a mount assignment under which a restore staged anywhere else than beside the output would fail *)
+Example C03_example_damage_heals :
+  oc_kind (o_heal 1000) = KMiss true /\ oc_stored (o_heal 1000) = true /\ oc_kind (o_again 1000) = KHit /\
+  oc_compiled (o_again 1000) = false.
+Proof. vm_compute. repeat split; reflexivity. Qed.
+
+Example C03_example_mounts :
+  let mnt := fun d : bytes => match d with [] => 1 | _ => 2 end in
+  restore_mounted mnt [([111], 5)] [out [111] [100; 47; 97]] [] = (true, [([100; 47; 97], 5)]) /\
+  mnt (stage_dir (out [111] [100; 47; 97])) <> mnt [].
+Proof. split; [vm_compute; reflexivity | vm_compute; discriminate]. Qed.
